@@ -98,36 +98,54 @@ Example C32_observation_lookalike :
   Match (b "*/1Min/OHLCV") (b "AAPL/5Min/OHLCV/2020.bin") = Some false.
 Proof. vm_compute. repeat split. Qed.
 
-(** * Synchronous mode with a trigger that writes: refuted
-    [Finding trigger-writes-during-fire]  With background sync disabled a flush runs in the caller's goroutine, and a
-    trigger whose Fire writes (contrib/ondiskagg does) flushes from its fire goroutine on the same dispatcher.
-    DispatchRecords sends tpd.m's entries and only afterwards resets tpd.m, unsynchronised: a nested flush in between
-    finds the writer's records still in the map and dispatches them a second time.  Full statement: in every
-    execution of the synchronous-mode LTS nothing is delivered more often than it was passed to AppendRecord. *)
-Definition C32_sync_full : Prop := forall trigs react callers s,
+(** * Synchronous mode (background sync disabled) with triggers that write from Fire
+    [Former finding trigger-writes-during-fire, FIXED in /repo: RequestFlush serialises the flushes it runs in its
+    callers' goroutines.]  A trigger whose Fire writes (contrib/ondiskagg) flushes from its fire goroutine on the same
+    dispatcher; with the flushes taking turns, the synchronous-mode LTS ([sstep]: any number of callers, any
+    triggers, any reaction of a trigger to a message, any interleaving of whole flushes and dispatcher iterations)
+    satisfies the full statement: at EVERY reachable state what has been delivered plus what waits on tpd.c is exactly
+    the specification for everything passed to AppendRecord so far. *)
+Theorem C32_sync_invariant : forall trigs react callers s,
+  ssteps trigs react (sinit callers) s ->
+  Permutation (events (y_fired s) ++ flat_map (ev_kv trigs) (kv (y_c s))) (spec_events trigs (y_appended s)).
+Proof. exact sync_invariant. Qed.
+Print Assumptions C32_sync_invariant.
+
+Theorem C32_sync_never_too_much : forall trigs react callers s,
   ssteps trigs react (sinit callers) s ->
   forall t k r,
-    count_occ event_eq_dec (events (y_fired s)) (t, k, r) <= count_occ kr_eq_dec (map ckr (y_appended s)) (k, r).
+    count_occ event_eq_dec (events (y_fired s)) (t, k, r) <=
+    if trig_matches trigs t k then count_occ kr_eq_dec (map ckr (y_appended s)) (k, r) else 0.
+Proof. exact sync_never_too_much. Qed.
+Print Assumptions C32_sync_never_too_much.
 
+Theorem C32_sync_exactly_once : forall trigs react callers s,
+  ssteps trigs react (sinit callers) s -> y_c s = [] ->
+  Permutation (events (y_fired s)) (spec_events trigs (y_appended s)).
+Proof. exact sync_exactly_once. Qed.
+Print Assumptions C32_sync_exactly_once.
+
+(** non-vacuity: the aggregating trigger of the former witness: the caller flushes the base record, the trigger is
+    fired and queues its own flush, which runs, and its record is dispatched (to nobody): a reachable drained state
+    in which the base record has been delivered exactly once and two records have been appended *)
 Definition sy_trigs : list (list tok) := Eval vm_compute in
   match parse_on (b "*/1Min/BASE") with Some p => [p] | None => [] end.
 Definition sy_base := Eval vm_compute in mkcmd (b "S0/1Min/BASE/2020.bin") (7%Z, [x01]).
 Definition sy_agg := Eval vm_compute in mkcmd (b "AGG/1H/AGG/2020.bin") (1%Z, [x02]).
-(** the trigger aggregates: whenever it is fired it writes one record to the aggregate bucket *)
 Definition sy_react (t : nat) (wr : wrecs) : list cmd := match t with O => [sy_agg] | _ => [] end.
-(** caller: append, send;  dispatcher: fires the trigger, whose fire goroutine flushes: append, send, reset
-    -- BEFORE the caller's reset;  dispatcher: the base record again *)
-Definition sy_schedule : list slabel :=
-  [LThread 0; LThread 0; LDispatch; LThread 1; LThread 1; LThread 1; LDispatch].
 
-Theorem C32_sync_refuted : ~ C32_sync_full.
+Example C32_sync_nonvacuous :
+  exists s, ssteps sy_trigs sy_react (sinit [[sy_base]]) s /\ y_c s = [] /\
+            List.length (y_appended s) = 2 /\ List.length (events (y_fired s)) = 1.
 Proof.
-  intros H.
-  destruct (sexec_all sy_trigs sy_react sy_schedule (sinit [[sy_base]])) as [s|] eqn:E; [|vm_compute in E; discriminate E].
-  pose proof (H sy_trigs sy_react [[sy_base]] s (sexec_all_sound _ _ _ _ _ E) 0 (c_key sy_base) (c_rec sy_base)) as Hle.
-  vm_compute in E. injection E as <-. vm_compute in Hle. exact (proj1 (PeanoNat.Nat.lt_nge 1 2) (le_n 2) Hle).
+  eexists. split.
+  - eapply Sss_step. { eapply (Ss_flush sy_trigs sy_react) with (i := 0) (cmds := [sy_base]); [reflexivity | discriminate | apply flush_det_ok]. }
+    eapply Sss_step. { eapply Ss_dispatch. reflexivity. }
+    eapply Sss_step. { eapply (Ss_flush sy_trigs sy_react) with (i := 1) (cmds := [sy_agg]); [reflexivity | discriminate | apply flush_det_ok]. }
+    eapply Sss_step. { eapply Ss_dispatch. reflexivity. }
+    apply Sss_refl.
+  - vm_compute. repeat split.
 Qed.
-Print Assumptions C32_sync_refuted.
 
 (** Non-vacuity: a concrete two-flush history with three triggers meets the hypotheses of
     C32_exactly_once and delivers a non-empty multiset; a concrete interleaving of two writers reaches a
